@@ -256,6 +256,9 @@ def build(desc):
 
     if desc.get("entry_point"):
         m.entry_point = blocks[desc["entry_point"]]
+    for key, table in (("dt_init", "elfDynamicInit"), ("dt_fini", "elfDynamicFini")):
+        if desc.get(key):
+            m.aux_data[table] = gtirb.AuxData(type_name="UUID", data=blocks[desc[key]])
 
     st = desc.get("symtabs") or {}
     if st:
